@@ -14,8 +14,8 @@ obtained label-free from the column sums.  Each data row is thereby *identified*
 alone and compared with its label.
 
 Model side: driver `ordermatch` (= `sortToMatch`) on (SED names in directory-listing order, table
-names) predicts which listing position lands in which row; `convolve 1|2` (= `convolveV1/V2` on tagged
-SEDs) predicts names and row contents of both formats.
+names) predicts which listing position lands in which row; `convnames 1|2` (= `convolveV1/V2` on tagged
+SEDs) predicts names and row contents of both formats (driver op `convnames`).
 """
 import itertools
 import os
@@ -548,7 +548,7 @@ def model_side(case, obs):
     nap = case['nap']
     out = dict(order=order, names=new_names)
     for v, src, table in ((1, obs['listing'], case['table']), (2, case['cube'], case['cube'])):
-        t = drv.ask('convolve %d %d %s %s' % (v, nap, names_line(src), names_line(table)))
+        t = drv.ask('convnames %d %d %s %s' % (v, nap, names_line(src), names_line(table)))
         nm = read_names(t)
         rows = []
         for _ in nm:
